@@ -28,6 +28,7 @@ import (
 	"strings"
 	"sync"
 	"time"
+	"weak"
 
 	"reduction.dev/reduction/dkv"
 	"reduction.dev/reduction/dkv/kv"
@@ -66,7 +67,11 @@ type c09Inst struct {
 	srcDocs   []string // documents the deploy reads (relative paths)
 	host      *c09Host
 	// hosted instances: the tables loaded at the deploy, and whose cleanup has run
-	loadedSet, cleaned map[string]bool
+	loadedSet map[string]bool
+	// how many table objects the instance loaded per file (a composite checkpoint may list a table once per handle),
+	// and how many of their cleanups have run
+	loadedCnt, cleaned map[string]int
+	crashed            bool
 	loadedSpan         map[string][2]int // key groups of first and last key
 	nbrRanges          [][2]int
 }
@@ -120,11 +125,19 @@ type c09World struct {
 	cleanups []string
 	// loaded-table cleanups whose decision the ownership wrapper has already recorded (the hook point follows it)
 	wrapped map[string]int
+	// held scans that can never be finished because a file they read is gone (a loss recorded earlier): an abandoned
+	// scan keeps its tables pinned for good (mergesort.Merge never stops the sources it pulls, D62); the level list is
+	// kept here so that exactly the tables of the scan stay pinned, whatever the coroutines hold
+	stuck []*c09Snap
 	// table → instance on whose behalf a neighbour was last asked about it (consumed by the cleanup hook)
 	asking map[string]int
-	closed  bool
-	retained []c09Handle
-	nextID   uint64
+	// census of table objects: weak pointers to every table object seen, cleanup events delivered (all, and per uri)
+	tracked     map[weak.Pointer[sst.Table]]string
+	cleanEvents int
+	cleanByURI  map[string]int
+	closed      bool
+	retained    []c09Handle
+	nextID      uint64
 	// a NeedsTable call of the harness parked between its two reads (hook dkv.needstable.between)
 	askArmed  bool
 	askDB     *dkv.DB
@@ -404,6 +417,13 @@ func (w *c09World) hook(label string, payload []any) {
 		}
 		uri, _ := payload[0].(string)
 		kind, _ := payload[1].(string)
+		w.mu.Lock()
+		w.cleanEvents++
+		if w.cleanByURI == nil {
+			w.cleanByURI = map[string]int{}
+		}
+		w.cleanByURI[uri]++
+		w.mu.Unlock()
 		if kind == "loaded" && strings.HasPrefix(uri, w.prefix) && len(payload) >= 3 {
 			// an instance served by a real operator.Operator has the operator's own data ownership (no wrapper): the
 			// decision of its cleanup is read here and attributed to the first such instance that loaded the table and
@@ -420,13 +440,13 @@ func (w *c09World) hook(label string, payload []any) {
 				if a, ok := w.asking[uri]; ok {
 					// this cleanup asked a neighbour: the stub knows on whose behalf
 					delete(w.asking, uri)
-					if a >= 0 && a < len(w.insts) && w.insts[a].host != nil && w.insts[a].loadedSet[uri] && !w.insts[a].cleaned[uri] {
+					if a >= 0 && a < len(w.insts) && w.insts[a].host != nil && !w.insts[a].crashed && w.insts[a].cleaned[uri] < w.insts[a].loadedCnt[uri] {
 						pick = w.insts[a]
 					}
 				}
 				for pass := 0; pass < 3 && pick == nil; pass++ {
 					for _, x := range w.insts {
-						if x.host == nil || !x.loadedSet[uri] || x.cleaned[uri] {
+						if x.host == nil || x.crashed || x.cleaned[uri] >= x.loadedCnt[uri] {
 							continue
 						}
 						// nobody was asked: the table's key groups lie inside the instance's own range, or no neighbour's
@@ -456,7 +476,7 @@ func (w *c09World) hook(label string, payload []any) {
 					}
 				}
 				if pick != nil {
-					pick.cleaned[uri] = true
+					pick.cleaned[uri]++
 					d := "keep"
 					if can {
 						d = "del"
@@ -489,6 +509,9 @@ func (w *c09World) hook(label string, payload []any) {
 	case "dkv.flush.done":
 		w.mu.Lock()
 		defer w.mu.Unlock()
+		if db, ok := payload[0].(*dkv.DB); ok {
+			w.trackDB(db)
+		}
 		x := w.instOf(payload[0])
 		if x == nil {
 			return
@@ -504,6 +527,12 @@ func (w *c09World) hook(label string, payload []any) {
 	case "dkv.compact.commit":
 		w.mu.Lock()
 		defer w.mu.Unlock()
+		if len(payload) >= 2 {
+			if cs, ok := payload[1].(*sst.ChangeSet); ok {
+				_, added, _ := cs.VerifChangeSet()
+				w.track(added...)
+			}
+		}
 		if w.isLate(payload[0]) && len(payload) >= 2 {
 			// the held compaction of the released instance was let go: these are the files it wrote late
 			if cs, ok := payload[1].(*sst.ChangeSet); ok {
@@ -526,6 +555,14 @@ func (w *c09World) hook(label string, payload []any) {
 		_, added, removed := cs.VerifChangeSet()
 		var rm, add []string
 		for _, t := range removed {
+			// a flushed table that a compaction already running took away before the flush's own hook point saw it in
+			// level 0 (the compaction queue is not ordered after that hook): its flush is reported here, first
+			if d := t.Document(); !x.known[d.URI] {
+				x.known[d.URI] = true
+				w.creator[d.URI] = x.idx
+				w.tblSig[w.canon(d.URI)] = w.sig(w.canon(d.URI))
+				x.events = append(x.events, "f+"+w.tblString(d.URI, d.StartKey, d.EndKey))
+			}
 			rm = append(rm, w.canon(t.URI()))
 		}
 		for _, t := range added {
@@ -648,25 +685,133 @@ func c09PlantSentinel(done chan struct{}) {
 	runtime.AddCleanup(s, func(ch chan struct{}) { close(ch) }, done)
 }
 
-// c09ForceGC collects every unreachable table object and waits until the cleanup goroutine has run their cleanups:
-// a sentinel object dropped after the first collection is cleaned up after everything queued before it
-// (one goroutine runs all cleanups sequentially).
-func c09ForceGC(timeout time.Duration) bool {
-	for round := 0; round < 2; round++ {
-		runtime.GC()
-		runtime.Gosched()
+// c09ForceGC collects every unreachable table object and waits until their cleanups have RUN.
+// runtime.GC returns when the cycle (sweep included) is complete, i.e. when every cleanup of an object found
+// unreachable in it is QUEUED; the cleanups run later on the runtime's own goroutine, which takes the queue batch by
+// batch (no order inside a batch) and lags behind under load. So one forced collection plus one sentinel proves
+// nothing about the others of the same batch. The wait therefore is:
+//   - rounds of (plant a sentinel; runtime.GC; wait for the sentinel's cleanup): when the sentinel of round r+1 has
+//     run, every cleanup queued up to round r has run (its batch was finished before the next one was taken);
+//   - until `quiet` consecutive rounds brought no table-cleanup event at all (objects kept alive for a cycle by a
+//     finalizer on their path - files - are found in a later round and reset the count);
+//   - and until the census agrees: every tracked table object whose weak pointer has been cleared (the collector has
+//     found it unreachable) has delivered its cleanup event.
+//
+// The upper bound's expiry is an explicit output (`blocked`).
+func (w *c09World) forceGC(timeout time.Duration) bool {
+	const quiet = 3
+	deadline := time.Now().Add(timeout)
+	events := func() int {
+		w.mu.Lock()
+		defer w.mu.Unlock()
+		return w.cleanEvents
+	}
+	last, calm := events(), 0
+	for calm < quiet || w.due() > 0 {
 		done := make(chan struct{})
 		c09PlantSentinel(done)
 		runtime.GC()
-		runtime.Gosched()
-		runtime.GC()
+		left := time.Until(deadline)
+		if left <= 0 {
+			return false
+		}
 		select {
 		case <-done:
-		case <-time.After(timeout):
+		case <-time.After(left):
 			return false
+		}
+		runtime.Gosched()
+		if n := events(); n != last {
+			last, calm = n, 0
+		} else {
+			calm++
+			if calm >= quiet && w.due() > 0 {
+				// collected, cleanup queued but not run yet: give the cleanup goroutine the processor
+				time.Sleep(time.Millisecond)
+			}
 		}
 	}
 	return true
+}
+
+// finishAsk: a NeedsTable call parked between its two reads holds the instance's database on its stack; when the
+// instance goes away (its process dies, or its operator drops it) the call ends with it - it is let go and its answer
+// discarded, so that nothing of the harness keeps the instance's objects reachable
+func (w *c09World) finishAsk(db *dkv.DB) {
+	w.mu.Lock()
+	if db == nil || w.askResume == nil || w.askDB != db {
+		w.mu.Unlock()
+		return
+	}
+	resume, answer := w.askResume, w.askAnswer
+	w.askResume, w.askDB = nil, nil
+	w.mu.Unlock()
+	close(resume)
+	select {
+	case <-answer:
+	case <-time.After(5 * time.Second):
+	}
+}
+
+// scanStuck: a held scan iterator one of whose tables has lost its file cannot be read to its end
+func (w *c09World) scanStuck(sn *c09Snap) bool {
+	if sn == nil || sn.next == nil {
+		return false
+	}
+	for _, u := range sn.uris {
+		if !w.store.exists(u) {
+			return true
+		}
+	}
+	return false
+}
+
+// track registers table objects for the census (w.mu held)
+func (w *c09World) track(ts ...*sst.Table) {
+	if w.tracked == nil {
+		w.tracked = map[weak.Pointer[sst.Table]]string{}
+	}
+	for _, t := range ts {
+		if t != nil {
+			w.tracked[weak.Make(t)] = t.URI()
+		}
+	}
+}
+
+func (w *c09World) trackDB(db *dkv.DB) {
+	if db == nil {
+		return
+	}
+	for _, l := range db.VerifLevels().VerifLayout() {
+		for _, ti := range l {
+			w.track(ti.Table)
+		}
+	}
+}
+
+// due counts tracked table objects the collector has found unreachable whose cleanup event has not arrived yet
+func (w *c09World) due() int {
+	w.mu.Lock()
+	defer w.mu.Unlock()
+	gone := map[string]int{}
+	for wp, uri := range w.tracked {
+		if wp.Value() == nil {
+			gone[uri]++
+		}
+	}
+	n := 0
+	for uri, c := range gone {
+		if c > w.cleanByURI[uri] {
+			n += c - w.cleanByURI[uri]
+		}
+	}
+	return n
+}
+
+// c09ForceGC: the same wait without a world (between cases)
+func c09ForceGC(timeout time.Duration) bool {
+	w := &c09World{}
+	return w.forceGC(timeout)
 }
 
 func c09ParseRange(s string) (int, int) {
@@ -766,7 +911,7 @@ func runC09(c lib.Case) []string {
 		w.closed = true
 		// the cleanup argument of every loaded table reaches this world through the ownership wrapper: cut the
 		// world's references to the instances, or their tables would stay reachable from their own cleanups forever
-		w.insts, w.grave = nil, nil
+		w.insts, w.grave, w.stuck = nil, nil, nil
 		w.mu.Unlock()
 		verifhook.Set(nil)
 	}()
@@ -882,10 +1027,11 @@ func runC09(c lib.Case) []string {
 							OperatorId: fmt.Sprintf("i%d", wi), DkvFileUri: w.prefix + fmt.Sprintf("i%d/checkpoints", w.dirOf(wi))})
 						x.srcDocs = append(x.srcDocs, fmt.Sprintf("i%d/checkpoints", w.dirOf(wi)))
 					}
-					x.loadedSet, x.cleaned, x.loadedSpan = map[string]bool{}, map[string]bool{}, map[string][2]int{}
+					x.loadedSet, x.cleaned, x.loadedCnt, x.loadedSpan = map[string]bool{}, map[string]int{}, map[string]int{}, map[string][2]int{}
 					for _, t := range preTabs {
 						x.known[t] = true
 						x.loadedSet[t] = true
+						x.loadedCnt[t]++
 					}
 					for _, wi := range fromWs {
 						ts, _, _, _ := w.docEntry(wi, fromID)
@@ -1308,6 +1454,7 @@ func runC09(c lib.Case) []string {
 				// a scan over everything, advanced by one entry and then held: what it pins is whatever the real
 				// iterators hold (the model says: the tables of the level list at the call)
 				sn.err = new(error)
+				sn.ll = x.db.VerifLevels() // the same tables the iterators hold; keeps them pinned if the scan gets stuck
 				res := c09Guard(func() string {
 					sn.next, sn.stop = iter.Pull(x.db.ScanPrefix(nil, sn.err))
 					sn.next()
@@ -1339,6 +1486,9 @@ func runC09(c lib.Case) []string {
 				}
 				if sn := x.snaps[k]; sn.next != nil && lost {
 					res = "files-missing" // another instance deleted a pinned file (D25/D34): the scan is abandoned
+					w.mu.Lock()
+					w.stuck = append(w.stuck, sn)
+					w.mu.Unlock()
 				} else if sn.next != nil {
 					// the held scan is read to its end: every table it pinned must still be readable
 					r := c09Guard(func() string {
@@ -1373,6 +1523,7 @@ func runC09(c lib.Case) []string {
 				out = append(out, "not-alive")
 				continue
 			}
+			w.finishAsk(x.db)
 			if f[0] == "release" && x.db != nil && x.op == nil {
 				// an in-process redeploy does what Operator.HandleDeploy does: it closes the previous database before the
 				// directory can be reopened. Close waits for the instance's background tasks; if one of them is held by
@@ -1403,6 +1554,7 @@ func runC09(c lib.Case) []string {
 			w.mu.Lock()
 			x.alive = false
 			if f[0] == "crash" {
+				x.crashed = true
 				// the process died: nothing of it is ever collected
 				w.grave = append(w.grave, x.db)
 				for _, s := range x.snaps {
@@ -1410,7 +1562,11 @@ func runC09(c lib.Case) []string {
 				}
 			} else {
 				for _, sn := range x.snaps {
-					c09DrainScan(sn)
+					if w.scanStuck(sn) {
+						w.stuck = append(w.stuck, sn)
+					} else {
+						c09DrainScan(sn)
+					}
 				}
 				x.snaps = nil
 				x.op = nil
@@ -1460,9 +1616,10 @@ func runC09(c lib.Case) []string {
 				out = append(out, "files-missing")
 				continue
 			}
+			w.finishAsk(x.db)
 			idx := len(w.insts)
 			nx := &c09Inst{idx: idx, gen: newGen, lo: x.lo, hi: x.hi, alive: true, mode: "truthful", known: map[string]bool{}, dir: x.dir,
-				op: x.op, host: x.host, loadedSet: map[string]bool{}, cleaned: map[string]bool{}, loadedSpan: map[string][2]int{},
+				op: x.op, host: x.host, loadedSet: map[string]bool{}, cleaned: map[string]int{}, loadedCnt: map[string]int{}, loadedSpan: map[string][2]int{},
 				nbrRanges: x.nbrRanges}
 			req := &workerpb.DeployOperatorRequest{Operators: x.deployReq.Operators, SourceRunnerIds: x.deployReq.SourceRunnerIds,
 				KeyGroupCount: x.deployReq.KeyGroupCount, StorageLocation: x.deployReq.StorageLocation}
@@ -1477,6 +1634,7 @@ func runC09(c lib.Case) []string {
 				for _, t := range ts {
 					nx.known[w.prefix+t[:strings.Index(t, ":")]] = true
 					nx.loadedSet[w.prefix+t[:strings.Index(t, ":")]] = true
+					nx.loadedCnt[w.prefix+t[:strings.Index(t, ":")]]++
 					if p := strings.Split(t, ":"); len(p) == 3 {
 						a, _ := strconv.Atoi(p[1])
 						b, _ := strconv.Atoi(p[2])
@@ -1512,7 +1670,13 @@ func runC09(c lib.Case) []string {
 			nx.ckptIDs = []uint64{fromID}
 			w.mu.Unlock()
 			for _, sn := range snaps {
-				c09DrainScan(sn)
+				if w.scanStuck(sn) {
+					w.mu.Lock()
+					w.stuck = append(w.stuck, sn)
+					w.mu.Unlock()
+				} else {
+					c09DrainScan(sn)
+				}
 			}
 			if nx.db == nil {
 				out = append(out, "err no-db")
@@ -1568,7 +1732,25 @@ func runC09(c lib.Case) []string {
 			out = append(out, "ok")
 		case "gc":
 			before := w.listFiles()
-			ok := c09ForceGC(12 * time.Second)
+			// every table object the instances hold now is in the census (objects created and dropped between two
+			// observations are registered by the flush and compaction hooks)
+			w.mu.Lock()
+			dbs := make([]*dkv.DB, 0, len(w.insts))
+			for _, x := range w.insts {
+				if x.db != nil {
+					dbs = append(dbs, x.db)
+				}
+			}
+			w.mu.Unlock()
+			for _, db := range dbs {
+				func() {
+					defer func() { recover() }()
+					w.mu.Lock()
+					defer w.mu.Unlock()
+					w.trackDB(db)
+				}()
+			}
+			ok := w.forceGC(12 * time.Second)
 			w.mu.Lock()
 			cl := w.cleanups
 			w.cleanups = nil
@@ -2043,14 +2225,24 @@ func genC09(r *lib.Rng, tier string) lib.Case {
 	for k, rg := range rs {
 		g.open(rg[0], rg[1], 0, g.nbrsOf(rs, k), "none", 0, false, -1)
 	}
+	// scale-out followed at once by a scale-in: the operators of the wider assembly checkpoint while they still list the
+	// tables they inherited, so the composite checkpoint of the narrower one lists the same table once per handle
+	quietGen, forceIn := false, false
 	for gen := 0; gen < gens; gen++ {
-		for _, i := range g.alive() {
-			g.write(i)
+		if quietGen && gen < gens-1 {
 			if r.Bool() {
-				g.write(i)
+				g.write(lib.Pick(r, g.alive()))
 			}
+			quietGen, forceIn = false, true
+		} else {
+			for _, i := range g.alive() {
+				g.write(i)
+				if r.Bool() {
+					g.write(i)
+				}
+			}
+			g.churn(r.Range(6, 22), gen)
 		}
-		g.churn(r.Range(6, 22), gen)
 		if gen == gens-1 {
 			break
 		}
@@ -2145,6 +2337,16 @@ func genC09(r *lib.Rng, tier string) lib.Case {
 		m := lib.Pick(r, []int{1, 1, 2, 2, 3, 4})
 		if len(writers) > 1 && r.Chance(1, 2) {
 			m = len(writers)
+		}
+		if forceIn && len(writers) > 1 {
+			m = lib.Pick(r, []int{1, 1, len(writers) - 1})
+			if m < 1 {
+				m = 1
+			}
+		}
+		forceIn = false
+		if len(writers) == 1 && m > 1 && !rollback && r.Chance(1, 2) {
+			quietGen = true
 		}
 		nrs := c09Ranges(m)
 		if m == len(writers) && len(writers) > 1 {
@@ -2310,6 +2512,14 @@ func c09FixedAll() []lib.Case {
 			"open 0-4 gen=1 nbrs=4-8 from=0:1", "open 4-8 gen=1 nbrs=0-4 from=0:1 host=op", "ckpt 1 2", "ckpt 2 2", "jobdrop 1",
 			"redeploy 2 gen=1 from=2:2", "write 1 14 8 0-3", "write 1 14 9 0-3", "retain 1 2", "gc", "files", "missing",
 			"retain 3 2", "gc", "files", "missing"}},
+		// scale-out, then scale-in while both operators still list the tables they inherited: the composite checkpoint
+		// lists every such table twice, the restored instance holds two objects per file; none of them may delete the
+		// file while the other is referenced, and when both are garbage each runs its cleanup (seeded C09-5)
+		{Header: "M C09 mem=120 l0=3", Tags: []string{"scale-out-scale-in-shared-table"}, Ops: []string{
+			"open 0-8 gen=0 nbrs=- from=none", "write 0 12 1 0-7", "ckpt 0 1", "crash 0",
+			"open 0-4 gen=1 nbrs=4-8 from=0:1", "open 4-8 gen=1 nbrs=0-4 from=0:1", "ckpt 1 2", "ckpt 2 2", "jobdrop 1", "crash 1", "crash 2",
+			"open 0-8 gen=2 nbrs=- from=1+2:2", "gc", "files", "missing",
+			"write 3 14 2 0-7", "write 3 14 3 0-7", "ckpt 3 3", "gc", "files", "missing", "jobdrop 2", "retain 3 3", "gc", "files", "missing"}},
 		// D25 (open): in-process redeploy — the released instance's tables are deleted under the restored one
 		{Header: "M C09 mem=120 l0=2", Tags: []string{"witness-D25"}, Ops: []string{
 			"open 0-8 gen=0 nbrs=- from=none", "write 0 12 7 0-7", "ckpt 0 1", "release 0",
